@@ -248,8 +248,11 @@ func newExecutor(opts *neat.Options) genetics.PopulationEpochExecutor {
 }
 
 // runScenario builds the population and turns it over sc.Epochs times, assigning fitness from the program.
+// buildOptions produces the options object of a scenario run; C17 swaps it to derive the object from a used one.
+var buildOptions = func(o OptSpec) *neat.Options { return o.Build() }
+
 func runScenario(sc Scenario, h epochHooks, rec *Rec) error {
-	opts := sc.Opts.Build()
+	opts := buildOptions(sc.Opts)
 	pop, err := buildPopulation(sc, opts)
 	if err == errSkipScenario {
 		rec.Class("skipped: constructor outside the domain (gene-less random genome / failing turnover before the checkpoint)")
